@@ -18,6 +18,24 @@ def warmup(o, rng, n=None, phos=True):
     N = len(seq)
     hist = []
     k = n if n is not None else rng.randint(2, 6)
+    # stateful scenarios first (each fills a cache / sets state that must stay unobservable), then random calls
+    sty = [i + 1 for i, r in enumerate(seq) if r in "STY"]
+    scen = rng.choice(["phos", "phos", "cache", "perm", "defaults", "dist", "none"])
+    pre = []
+    if scen in ("phos", "dist") and sty and phos:
+        pre.append({"call": "set_phosphosites", "sites": rng.sample(sty, min(len(sty), rng.randint(1, 3)))})
+        pre.append({"call": "get_kappa_after_phosphorylation" if scen == "phos" else "get_phospho_distribution"})
+        if rng.random() < 0.3:
+            pre.append({"call": "clear_phosphosites"})
+    elif scen == "cache":
+        pre += [{"call": "get_kappa"}, {"call": "get_Omega"}]
+    elif scen == "perm":
+        pre += [{"call": "get_deltaMaxPerm"}, {"call": "get_shuffled_sequence"}]
+    elif scen == "defaults":
+        pre += [{"call": "get_linear_composition", "w": rng.randint(1, N)}, {"call": "get_linear_composition", "w": rng.randint(1, N)}]
+    for c in pre:
+        apply_call(o, c)
+        hist.append(c)
     for _ in range(k):
         name = rng.choice(WARM)
         c = {"call": name}
